@@ -28,6 +28,13 @@ Replay(t, d, i) ==
            ELSE IF s.res.k # (IF Has(d, o.p) THEN "t" ELSE "nil") THEN [at |-> i, why |-> "has result", d |-> d]
            ELSE IF ~Same(d, s.after) THEN [at |-> i, why |-> "has changed the document", d |-> d]
            ELSE Replay(t, d, i + 1)
+      \* walk: the values handed to the function are the values the path matches, each as often (the order is not compared)
+      [] o.op = "walk" -> LET ms == Matches(d, o.p)  vs == s.res.v IN
+           IF s.st # "ok" THEN [at |-> i, why |-> "walk signals", d |-> d]
+           ELSE IF Len(ms) # Len(vs) \/ \E a \in 1..Len(ms) : Cardinality({j \in 1..Len(vs) : ViewEq(ms[a], vs[j])}) < Cardinality({j \in 1..Len(ms) : Same(ms[a], ms[j])})
+                THEN [at |-> i, why |-> "walk visits other values than the path matches", d |-> d]
+           ELSE IF ~Same(d, s.after) THEN [at |-> i, why |-> "walk changed the document", d |-> d]
+           ELSE Replay(t, d, i + 1)
       [] o.op = "set" -> LET r == Set(d, o.p, o.v) IN
            IF s.st # "ok" THEN [at |-> i, why |-> "set signals", d |-> d]
            ELSE IF ~Same(r.d, s.after) THEN [at |-> i, why |-> "document after set", d |-> r.d]
